@@ -67,11 +67,20 @@ fn case_run(src: &mut Src, st: &mut Stats, _env: &Env) -> CaseResult {
             mutate(&a, "b", src).0
         }
         5 => src.pick(&["&s", "not_null(z, &s)", "[&s]", "s || &s", "nope(@)", "abs('x')", "nums[::0]", "length(@)", "sum(strs)", "-1", "-", "--ast", "-u", "\"é\".\"日本\"", "'😀'", "s", "strs[0]", "objs[*].s | [0]", "@", "to_string(@)", "keys(@)"]).to_string(),
-        6 => src.pick(&["s", "s2", "strs[-1]", "objs[0].s", "join('\n', strs)", "to_string(nums)", "type(@)"]).to_string(),
+        6 => src.pick(&["s", "s2", "strs[-1]", "objs[0].s", "join('\n', strs)", "to_string(nums)", "type(@)", "'a b'", "['a b', s]", "s == 'a b' || 'x y z'", "length('a b c')", "contains('a b', ' ')", "{k: 'p q'}"]).to_string(),
         _ => "@".to_string(),
     };
     let expr = if src.chance(60) { src.pick(&["s", "strs[1]", "rows[-1].name", "@", "length(rows)", "rows[*].name | [0]", "join('\n', strs)", "pad"]).to_string() } else { expr };
     let expr = expr.replace('\u{0}', "0");
+    // sometimes every blank of the expression (inside quoted forms too) becomes a line break
+    // of some kind: an expression file is read byte for byte
+    let expr = if src.chance(40) {
+        let nl = *src.pick(&["\r\n", "\n", "\r", "\n\r", "\t", "\r\n\r\n"]);
+        let e2 = expr.replace(' ', nl);
+        if e2 == expr { format!("{}{}", expr, nl) } else { e2 }
+    } else {
+        expr
+    };
     // input
     let big = src.chance(40);
     let (input, input_is_json): (Vec<u8>, bool) = if big {
@@ -238,6 +247,6 @@ pub fn property() -> Property {
             "expressions are passed as one argument after `--` or through -e; NUL bytes and non-UTF-8 arguments are not generated".into(),
         ],
         minimise: None,
-        subs: vec![Sub::Bytes(BytesSub { name: "runs", f: case_run, max_len: 1500, quick: Budget { threads: 8, cases: 400 }, thorough: Budget { threads: 16, cases: 12_000 }, keep_unreproducible: false })],
+        subs: vec![Sub::Bytes(BytesSub { name: "runs", f: case_run, max_len: 1500, quick: Budget { threads: 8, cases: 1200 }, thorough: Budget { threads: 16, cases: 12_000 }, keep_unreproducible: false })],
     }
 }
